@@ -262,7 +262,7 @@ impl FaultCtl {
         self.armed.store(false, Ordering::SeqCst);
         self.count.load(Ordering::SeqCst)
     }
-    fn hit(&self, m: &str) -> bool {
+    pub fn hit(&self, m: &str) -> bool {
         if !self.armed.load(Ordering::SeqCst) {
             return false;
         }
